@@ -19,6 +19,11 @@ EV = "radicle_cob::object::collaboration::Evaluate"
 
 
 def run(ctx):
+    _run(ctx)
+    who_verifies(ctx)
+
+
+def _run(ctx):
     db = ctx.db
     ctx.explanation = (
         "Decides for the object layer: every Evaluate::apply implementation in the workspace is transactional "
@@ -133,3 +138,33 @@ def describe(db, tx, fn, param, depth=0):
             break
         cur, p = tg[0], idx[0] + 1
     return {"where": where, "chain": chain}
+
+
+def who_verifies(ctx):
+    """Signature validity is decided where its consequence — pruning the change *and its dependents* — is drawn: in
+    `ChangeGraph::evaluate` through `Entry::valid_signatures`.  A verification anywhere earlier (e.g. the loader refusing
+    a change whose signature does not verify) turns the change into an unloadable one, which `ChangeGraph::load` skips
+    while its dependents stay in the graph."""
+    db = ctx.db
+    sites = []
+    for fn in db.all_fns():
+        if fn["crate"] not in ("radicle_cob", "radicle"):
+            continue
+        for bb, t, c in db.calls(fn):
+            n = c.get("n") or ""
+            if re.search(r"ExtendedSignature::verify$", n):
+                sites.append(("verify", fn, bb))
+            elif re.search(r"change::store::Entry::valid_signatures$", n):
+                sites.append(("valid_signatures", fn, bb))
+    ctx.floor("who:signature-check", len(sites), 2, "signature verification sites of COB changes")
+    for what, fn, bb in sites:
+        rk = db.root_of(fn)["key"]
+        if what == "verify":
+            ok = re.search(r"^radicle_cob::change::store::Entry::valid_signatures$|^radicle_crypto::", rk) is not None or not fn["file"].startswith("crates/radicle-cob/")
+            why = "ExtendedSignature::verify on a change is called only by Entry::valid_signatures"
+        else:
+            ok = re.search(r"^radicle_cob::change_graph::ChangeGraph::evaluate$", rk) is not None
+            why = "Entry::valid_signatures is consulted only by ChangeGraph::evaluate (where a failure prunes the change with its dependents)"
+        ctx.check("who:signature-check:%s:%s" % (what, cfg.short(rk)), ok,
+                  why + " — a change rejected for its signature before evaluation is skipped by the loader while the changes that depend on it survive",
+                  rules.where(fn, bb), fn=fn)
